@@ -284,6 +284,8 @@ package nfsv4
 //@             len(slot.currentSequenceWaiters) > 0 &&
 //@             slot.currentSequenceWaiters[len(slot.currentSequenceWaiters)-1] == ch
 //@   at call recv#1 assert lock-released-before-blocking: held(p.clientsLock) == 0
+//@   loop 0 invariant cached-reply-is-compared-only-against-a-request-of-its-shape:
+//@             len(cachedResults) <= len(argArray) && (slot.lastResult.status == nfsv4.NFS4_OK ==> len(cachedResults) == len(argArray))
 
 //@ func (*lockOwnerTransaction).complete
 //@   props C19
